@@ -170,7 +170,7 @@ def run(ck):
     ck.rule("C09-R4", "A lockset + call-graph reachability (lock re-entrancy)",
             "no call made while a server-side member mutex is held (Transport::toWriteLock) can reach a function that acquires the same "
             "mutex again: promise continuations run by deferred.resolve/reject (e.g. the idle time-out's release path, which locks "
-            "toWriteLock in removePeer) are only invoked after the lock was released", 5)
+            "toWriteLock in removePeer) are only invoked after the lock was released", 3)
     for fn in prog.funcs.values():
         if fn.is_lambda or not (fn.file.startswith(facts.REPO + "/src") or fn.file.startswith(facts.REPO + "/include")):
             continue
